@@ -308,12 +308,31 @@ class Builder:
             g.edge(b, t_false, 'n', (test, fr, False))
 
     def st_If(self, st, fr, k):
-        g = self.g
-        b = g.node('branch', st.test, fr, 'if')
         t = self.block(st.body, fr, k)
         f = self.block(st.orelse, fr, k) if st.orelse else k.next
-        self._branch(b, st.test, fr, t, f)
-        return self.cond(st.test, fr, k, b)
+        return self.cond_branch(st.test, fr, k, t, f, 'if')
+
+    def cond_branch(self, test, fr, k, t_true, t_false, label):
+        """Short-circuit translation of a test: `a and b` / `a or b` / `not a` become chains of single-operand branches, each edge carrying the operand
+        and its outcome -- `if a and b: S` and `if a: if b: S` give the same graph, and machines learn from every conjunct on the path they are on."""
+        g = self.g
+        if isinstance(test, ast.BoolOp):
+            ent = None
+            vals = list(test.values)
+            nxt_true, nxt_false = t_true, t_false
+            # build from the last operand backwards
+            target = self.cond_branch(vals[-1], fr, k, t_true, t_false, label)
+            for v in reversed(vals[:-1]):
+                if isinstance(test.op, ast.And):
+                    target = self.cond_branch(v, fr, k, target, t_false, label)
+                else:
+                    target = self.cond_branch(v, fr, k, t_true, target, label)
+            return target
+        if isinstance(test, ast.UnaryOp) and isinstance(test.op, ast.Not) and isinstance(test.operand, ast.BoolOp):
+            return self.cond_branch(test.operand, fr, k, t_false, t_true, label)
+        b = g.node('branch', test, fr, label)
+        self._branch(b, test, fr, t_true, t_false)
+        return self.cond(test, fr, k, b)
 
     def cond(self, test, fr, k, b):
         """Evaluate a test expression then go to branch node b."""
@@ -325,9 +344,7 @@ class Builder:
         after = k.next
         orelse = self.block(st.orelse, fr, k) if st.orelse else after
         body = self.block(st.body, fr, k.w(next=head, brk=after, cont=head))
-        b = g.node('branch', st.test, fr, 'while-test')
-        self._branch(b, st.test, fr, body, orelse)
-        t = self.expr(st.test, fr, k.w(next=b))
+        t = self.cond_branch(st.test, fr, k, body, orelse, 'while-test')
         g.edge(head, t)
         return head
 
